@@ -30,6 +30,20 @@ def replay (j : Json) : R Verdict := do
   let mut tags : List String := [s!"run:threaded={threaded}", s!"run:nc={nc}"]
   if (fieldD j "immediate").getBool?.toOption == some true then tags := "run:immediate-async" :: tags
   if (fieldD j "tiny").getBool?.toOption == some true then tags := "run:tiny-objective" :: tags
+  if ret.compress == "\"panic\"" then
+    pf := pf ++ [s!"C15: sync_launch::launch panicked ({if (fieldD j "stalledLate").getBool?.toOption == some true then "the time limit expired after the controller had finished, while the report writer was still waiting for its sink" else "in-process run"})",
+                 s!"C04: a run whose time limit expired with nothing left in flight panicked instead of returning its result"]
+  match (fieldD j "stdoutNoise").getNat?.toOption with
+  | some k => if k > 0 then pf := pf ++ [s!"C16: the library wrote {k} byte(s) to the process's standard output during a run: a successful CLI run would print more than its one line"]
+  | none => pure ()
+  if (fieldD j "nullGuess").getBool?.toOption == some true then
+    tags := "run:null-guess" :: tags
+    -- (conflicting criteria are reported first: also a failing run without any evaluation)
+    let refused := (ret.getObjVal? "badGuess").toOption.isSome || ((compile crits).isNone && ret.compress == "\"conflict\"")
+    if calls != 0 || !refused then
+      pf := pf ++ [s!"C11: the guess `null` does not conform to the spec (its root is a mapping), yet {calls} evaluation(s) were started and the run returned {ret.compress}"]
+    let kind := if !pf.isEmpty then "PROPFAIL" else "ok"
+    return { case, kind, props := (pf.map (fun f => (f.take 3).toString)).eraseDups, what := (pf.head?.getD ""), tags, size := calls + 1, fails := pf }
   match compile crits with
   | none =>
     tags := "run:conflict" :: tags
@@ -48,7 +62,9 @@ def replay (j : Json) : R Verdict := do
     match (fieldD j "stalledStarted").getNat?.toOption with
     | some k =>
       tags := "run:stalled-report-sink" :: tags
-      if k < n then
+      -- (with a time limit in the criteria - the stalled-late cases - a machine so loaded that the budget is not even
+      -- started within the limit is not a work-conservation failure)
+      if k < n && (fieldD j "stalledLate").getBool?.toOption != some true then
         pf := pf ++ [s!"C05: while the detailed report file could not be written (a FIFO nobody read yet; budget {n}, far below the report channel's capacity) only {k} of {n} evaluations were started: finished evaluations were not replaced although slots and budget were free"]
     | none => pure ()
     let reachable := match c.target with | some t => F64.le (.fin 0) t | none => false   -- 1e9: reached by the first accepted result
@@ -70,6 +86,7 @@ def replay (j : Json) : R Verdict := do
       match failAt with
       | some k => if k < n && ret.compress != "\"nonFinite\"" && !reachable then
           dis := some s!"evaluation {k} returned a non-finite value, the run returned {ret.compress}"
+          pf := pf ++ [s!"C06: evaluation {k} returned NaN (a failure), the run returned {ret.compress} instead of that failure"]
       | none => if ret.compress != "\"noIndividuals\"" then dis := some s!"unexpected error {ret.compress}"
       -- C14 on failure: the files written so far stay consistent; with one evaluation at a time every earlier
       -- evaluation has been processed, so it has its record
